@@ -17,10 +17,10 @@ import (
 
 // Obligation result of one verifAssert on one path.
 type AssertRes struct {
-	Harness string
-	Label   string
-	Res     string // unsat | sat | unknown...
-	Cex     *Cex
+	Harness    string
+	Label      string
+	Res        string // unsat | sat | unknown...
+	Cex        *Cex
 	Nontrivial bool
 }
 
@@ -50,12 +50,12 @@ type PathEnd struct {
 
 // Engine holds what is shared by all paths of one harness run.
 type Engine struct {
-	Prog     *ssa.Program
-	Models   map[string]*ssa.Function
-	RootPkg  *ssa.Package
-	Base     *State
-	Cfg      Config
-	Pool     *SolverPool
+	Prog    *ssa.Program
+	Models  map[string]*ssa.Function
+	RootPkg *ssa.Package
+	Base    *State
+	Cfg     Config
+	Pool    *SolverPool
 
 	gmu      sync.Mutex
 	globals  map[*ssa.Global]int
@@ -63,22 +63,24 @@ type Engine struct {
 	fresh    int64
 	ufDecl   map[string]string
 
-	mu        sync.Mutex
-	Paths     int
-	Ends      map[string]int
-	Inconcl   map[string]int
-	PanicsAt  map[string]int
-	Results   []AssertRes
-	Reached   map[string]int
-	FnsHit    map[string]int
-	FnObj     map[string]*ssa.Function
-	ModelsHit map[string]int
-	Assumes   map[string]int
+	mu            sync.Mutex
+	Paths         int
+	Ends          map[string]int
+	Inconcl       map[string]int
+	PanicsAt      map[string]int
+	Results       []AssertRes
+	Reached       map[string]int
+	FnsHit        map[string]int
+	FnObj         map[string]*ssa.Function
+	ModelsHit     map[string]int
+	Assumes       map[string]int
 	OverflowPaths int
-	Harness   string
-	Samples   []string
-	inInit    bool
-	maxSteps  int
+	Harness       string
+	cexCount      map[string]int
+	PrecByLabel   map[string]int
+	Samples       []string
+	inInit        bool
+	maxSteps      int
 }
 
 type Config struct {
@@ -92,7 +94,7 @@ type Config struct {
 
 func NewEngine(prog *ssa.Program, cfg Config) *Engine {
 	return &Engine{Prog: prog, Cfg: cfg, Models: map[string]*ssa.Function{}, globals: map[*ssa.Global]int{}, ufDecl: map[string]string{},
-		Ends: map[string]int{}, Inconcl: map[string]int{}, PanicsAt: map[string]int{}, Reached: map[string]int{}, FnsHit: map[string]int{},
+		cexCount: map[string]int{}, PrecByLabel: map[string]int{}, Ends: map[string]int{}, Inconcl: map[string]int{}, PanicsAt: map[string]int{}, Reached: map[string]int{}, FnsHit: map[string]int{},
 		FnObj: map[string]*ssa.Function{}, ModelsHit: map[string]int{}, Assumes: map[string]int{}, Pool: &SolverPool{}}
 }
 
